@@ -211,6 +211,7 @@ def particle_cases(ctx, rnd, n_per_model):
                 L = min(dec.get_l_list())
                 m = rnd.uniform(m1 + m2 + 0.01, 0.89)
                 val = complex(np.array(part(tf.constant([m], dtype=tf.float64))).reshape(-1)[0])
+                nonfinite = None
                 # "below threshold" refers to the decay's ACTUAL daughter masses (create_test_config fixes them), not to mB, mC
                 below = model in ("BWR2", "BWR_below", "BWR_normal") and float(part.get_mass()) < m1 + m2
             except Exception as e:
@@ -236,6 +237,7 @@ def particle_cases(ctx, rnd, n_per_model):
                 expr = "BWR2 %s %s %s %s %s %d %s" % (Rq(m), Rq(m0v), Rq(g0v), Rq(q2u), Rq(q02u), L, Rq(d))
                 rt = 1e-8
                 if below and not (math.isfinite(val.real) and math.isfinite(val.imag)):
+                    nonfinite = str(val)
                     val = complex(1e300, 1e300)   # NaN/inf cannot be printed as a rational: any finite model value refutes the goal
             elif model == "BWR_below":
                 if below:
@@ -292,7 +294,7 @@ def particle_cases(ctx, rnd, n_per_model):
                 expr = "shape_exp_com %s %s %s" % (Rq(float(part.a())), Rq(float(part.b())), Rq(m))
             ctx.count("model:" + model + (":below" if below else ""))
             cases.append(("pm_%s_%d" % (model, k), cplx_stmt(expr, val, rtol=rt), TAC,
-                          {"function": "Particle(model=%s).__call__" % model, "args": {"m": m, "m0": m0v, "g0": g0v, "m1": m1, "m2": m2, "L": L, "below_threshold": below}, "impl": str(val)}))
+                          {"function": "Particle(model=%s).__call__" % model, "args": {"m": m, "m0": m0v, "g0": g0v, "m1": m1, "m2": m2, "L": L, "below_threshold": below}, "impl": nonfinite or str(val)}))
     return cases
 
 
